@@ -6,8 +6,11 @@ use pc_keyboard::*;
 
 mod generated;
 use generated::*;
+mod cellcheck;
+include!("xgen.rs");
+include!("xspec.rs");
 
-fn fmt_decoded(d: DecodedKey) -> String {
+pub fn fmt_decoded(d: DecodedKey) -> String {
     match d {
         DecodedKey::Unicode(c) => format!("U+{:04X}", c as u32),
         DecodedKey::RawKey(k) => format!("Raw:{:?}", k),
@@ -37,7 +40,7 @@ fn mods_from_bits(s: &str) -> Modifiers {
     Modifiers { lshift: b[0], rshift: b[1], lctrl: b[2], rctrl: b[3], numlock: b[4], capslock: b[5], lalt: b[6], ralt: b[7], rctrl2: b[8] }
 }
 
-fn mods_to_bits(m: &Modifiers) -> String {
+pub fn mods_to_bits(m: &Modifiers) -> String {
     [m.lshift, m.rshift, m.lctrl, m.rctrl, m.numlock, m.capslock, m.lalt, m.ralt, m.rctrl2].iter().map(|b| if *b { '1' } else { '0' }).collect()
 }
 
@@ -48,7 +51,7 @@ fn mode_from(s: &str) -> HandleControl {
     }
 }
 
-fn key_from(s: &str) -> KeyCode {
+pub fn key_from(s: &str) -> KeyCode {
     for (n, k) in KEYCODES {
         if *n == s {
             return *k;
@@ -217,6 +220,31 @@ fn main() {
             } else {
                 go(Keyboard::new(ScancodeSet2::new(), lay, mode), &args[5..]);
             }
+        }
+        "kanicex" => {
+            // kanicex <scenario> <integers...>: run a scenario of xspec.rs with the concrete values of a Kani counterexample
+            let v: Vec<u64> = args[3..].iter().map(|a| a.parse::<u64>().expect("integer")).collect();
+            let name = args[2].clone();
+            let r = std::panic::catch_unwind(move || match name.as_str() {
+                "word" => scenario_word(v[0] as u16, true),
+                "bits" => scenario_bits(v[0] as u32, v[1] as u8, v[2] as u8, true),
+                "stream1" | "stream2" => scenario_stream(if name == "stream1" { 1 } else { 2 }, [v[0] as u8, v[1] as u8, v[2] as u8, v[3] as u8], v[4] as u8, true),
+                "events" => scenario_events([v[0] as u8, v[1] as u8, v[2] as u8], [v[3] as u8, v[4] as u8, v[5] as u8], v[6] as u8, v[7] as u8, true),
+                "keyboard1" | "keyboard2" => scenario_keyboard(if name == "keyboard1" { 1 } else { 2 }, v[0] as u16, v[1] as u8, [v[2] as u8, v[3] as u8], v[4] as u8, v[5] as u8, v[6] as u16, v[7] as u8, true),
+                "layout_total" => scenario_layout_total(v[0] as u8, v[1] as u8, v[2] as u8, v[3] as u16, v[4] != 0, true),
+                _ => panic!("unknown scenario"),
+            });
+            match r {
+                Ok(true) => println!("RESULT agrees"),
+                Ok(false) => println!("RESULT MISMATCH"),
+                Err(e) => {
+                    let msg = if let Some(s) = e.downcast_ref::<&str>() { s.to_string() } else if let Some(s) = e.downcast_ref::<String>() { s.clone() } else { "panic".to_string() };
+                    println!("RESULT PANIC: {}", msg)
+                }
+            }
+        }
+        "cellcheck" => {
+            println!("{}", cellcheck::run(&args[2..]));
         }
         _ => {
             eprintln!("usage: replayer tables|layouts|layout|bytes|word|bits|events|keyboard ...");
